@@ -15,7 +15,7 @@ def pure(state, action, next_state, rng, s0, n0):
 
 
 @contract(target=RF + 'overlap', args=dict(SAN, object_type='Class', reward_on='float', reward_off='float', rng='Rng'),
-          kwonly=['object_type', 'reward_on', 'reward_off', 'rng'], props=['C01', 'C03', 'C12'])
+          kwonly=['object_type', 'reward_on', 'reward_off', 'rng'], props=['C02', 'C01', 'C03', 'C12'])
 def overlap(state, action, next_state, object_type, reward_on, reward_off, rng):
     requires(in_grid(next_state.grid, next_state.agent.position))
     s0 = old(state)
@@ -27,7 +27,7 @@ def overlap(state, action, next_state, object_type, reward_on, reward_off, rng):
 
 
 @contract(target=RF + 'living_reward', args=dict(SAN, reward='float', rng='Rng'), kwonly=['reward', 'rng'],
-          props=['C01', 'C03', 'C12'])
+          props=['C02', 'C01', 'C03', 'C12'])
 def living_reward(state, action, next_state, reward, rng):
     s0 = old(state)
     n0 = old(next_state)
@@ -37,7 +37,7 @@ def living_reward(state, action, next_state, reward, rng):
 
 
 @contract(target=RF + 'reach_exit', args=dict(SAN, reward_on='float', reward_off='float', rng='Rng'),
-          kwonly=['reward_on', 'reward_off', 'rng'], props=['C01', 'C03', 'C12'])
+          kwonly=['reward_on', 'reward_off', 'rng'], props=['C02', 'C01', 'C03', 'C12'])
 def reach_exit(state, action, next_state, reward_on, reward_off, rng):
     requires(in_grid(next_state.grid, next_state.agent.position))
     s0 = old(state)
@@ -49,7 +49,7 @@ def reach_exit(state, action, next_state, reward_on, reward_off, rng):
 
 
 @contract(target=RF + 'bump_moving_obstacle', args=dict(SAN, reward='float', rng='Rng'), kwonly=['reward', 'rng'],
-          props=['C01', 'C03', 'C12'])
+          props=['C02', 'C01', 'C03', 'C12'])
 def bump_moving_obstacle(state, action, next_state, reward, rng):
     requires(in_grid(next_state.grid, next_state.agent.position))
     s0 = old(state)
@@ -61,7 +61,7 @@ def bump_moving_obstacle(state, action, next_state, reward, rng):
 
 
 @contract(target=RF + 'bump_into_wall', args=dict(SAN, reward='float', rng='Rng'), kwonly=['reward', 'rng'],
-          props=['C01', 'C03', 'C12'])
+          props=['C02', 'C01', 'C03', 'C12'])
 def bump_into_wall(state, action, next_state, reward, rng):
     requires(in_grid(state.grid, state.agent.position))
     s0 = old(state)
@@ -76,7 +76,7 @@ def bump_into_wall(state, action, next_state, reward, rng):
 
 
 @contract(target=RF + 'actuate_door', args=dict(SAN, reward_open='float', reward_close='float', rng='Rng'),
-          kwonly=['reward_open', 'reward_close', 'rng'], props=['C01', 'C03', 'C12'])
+          kwonly=['reward_open', 'reward_close', 'rng'], props=['C02', 'C01', 'C03', 'C12'])
 def actuate_door(state, action, next_state, reward_open, reward_close, rng):
     requires(in_grid(state.grid, state.agent.position))
     requires(next_state.grid.shape == state.grid.shape)
@@ -93,7 +93,7 @@ def actuate_door(state, action, next_state, reward_open, reward_close, rng):
 
 
 @contract(target=RF + 'pickndrop', args=dict(SAN, object_type='Class', reward_pick='float', reward_drop='float', rng='Rng'),
-          kwonly=['object_type', 'reward_pick', 'reward_drop', 'rng'], props=['C01', 'C03', 'C12'])
+          kwonly=['object_type', 'reward_pick', 'reward_drop', 'rng'], props=['C02', 'C01', 'C03', 'C12'])
 def pickndrop(state, action, next_state, object_type, reward_pick, reward_drop, rng):
     s0 = old(state)
     n0 = old(next_state)
@@ -113,7 +113,7 @@ def unique_cell(grid, object_type, c):
           args=dict(SAN, distance_function=('fn', 'float'), object_type='Class', reward_closer='float',
                     reward_further='float', rng='Rng', c1='Position', c2='Position'),
           kwonly=['distance_function', 'object_type', 'reward_closer', 'reward_further', 'rng'],
-          ghost=['c1', 'c2'], props=['C01', 'C03', 'C12'])
+          ghost=['c1', 'c2'], props=['C02', 'C01', 'C03', 'C12'])
 def getting_closer(state, action, next_state, distance_function, object_type, reward_closer, reward_further, rng, c1, c2):
     # documented precondition: object_type is the type of a *unique* object in the grid (ghost c1, c2: where)
     requires(unique_cell(state.grid, object_type, c1) and unique_cell(next_state.grid, object_type, c2))
@@ -133,7 +133,7 @@ def getting_closer(state, action, next_state, distance_function, object_type, re
           args=dict(SAN, distance_function=('fn', 'float'), object_type='Class', reward_per_unit_distance='float',
                     rng='Rng', c2='Position'),
           kwonly=['distance_function', 'object_type', 'reward_per_unit_distance', 'rng'], ghost=['c2'],
-          props=['C01', 'C03', 'C12'])
+          props=['C02', 'C01', 'C03', 'C12'])
 def proportional_to_distance(state, action, next_state, distance_function, object_type, reward_per_unit_distance, rng, c2):
     requires(unique_cell(next_state.grid, object_type, c2))
     s0 = old(state)
@@ -146,7 +146,7 @@ def proportional_to_distance(state, action, next_state, distance_function, objec
 
 
 @contract(target=RF + 'reach_exit_memory', args=dict(SAN, reward_good='float', reward_bad='float', rng='Rng', b='Position'),
-          kwonly=['reward_good', 'reward_bad', 'rng'], ghost=['b'], props=['C01', 'C03', 'C12'])
+          kwonly=['reward_good', 'reward_bad', 'rng'], ghost=['b'], props=['C02', 'C01', 'C03', 'C12'])
 def reach_exit_memory(state, action, next_state, reward_good, reward_bad, rng, b):
     requires(in_grid(next_state.grid, next_state.agent.position))
     # documented setting (memory tasks): beacons exist and all have one colour; ghost b: some beacon
@@ -194,7 +194,7 @@ def is_layout_of(layout, grid):
           args=dict(SAN, object_type='Class', reward_closer='float', reward_further='float', rng='Rng',
                     c1='Position', c2='Position'),
           kwonly=['object_type', 'reward_closer', 'reward_further', 'rng'], ghost=['c1', 'c2'],
-          stubs={DIJ: ('native-real', 'RealArr')}, props=['C01', 'C03', 'C12'])
+          stubs={DIJ: ('native-real', 'RealArr')}, props=['C02', 'C01', 'C03', 'C12'])
 def getting_closer_shortest_path(state, action, next_state, object_type, reward_closer, reward_further, rng, c1, c2):
     requires(unique_cell(state.grid, object_type, c1) and unique_cell(next_state.grid, object_type, c2))
     requires(in_grid(state.grid, state.agent.position) and in_grid(next_state.grid, next_state.agent.position))
